@@ -55,6 +55,7 @@ cfg("C13x", "Classes4", "OutsC13", "{0}", "RetsOne", "AdvsC13", "DecsAll", "RasN
 cfg("C14", "Classes4", "OutsC03", "{0, 1}", "RetsOne", "AdvsExact", "DecsAll", "RasNone", BOTH, 1, "ConfigsC03", False)
 cfg("C14x", "Classes4", "OutsC03", "{1}", "RetsOne", "AdvsExact", "DecsAll", "RasNone", BOTH, 1, "ConfigsC14x", True, edurs="SomeDur")
 cfg("C15", "Classes4", "OutsC12", "{0, 2}", "RetsTwo", "AdvsExact", "DecsAll", "RasSome", BOTH, 1, "ConfigsC12", False)
+cfg("C16y", "Classes4", "OutsC16y", "{0}", "RetsMonths", "AdvsExact", "DecsSleep", "RasNone", BOTH, 1, "ConfigsC16y", True)
 cfg("C15y", "Classes4", "OutsC15y", "{1}", "RetsOne", "AdvsExact", "DecsSleep", "RasNone", EXEC, 1, "ConfigsC15y", True)
 cfg("C15x", "Classes4", "OutsC12x", "{2}", "RetsOne", "AdvsExact", "DecsAll", "RasSome", BOTH, 1, "ConfigsC15x", True)
 cfg("C16", "Classes4", "OutsC16", "{0}", "RetsTwo", "AdvsExact", "DecsAll", "RasNone", BOTH, 1, "ConfigsC16", False)
